@@ -1,6 +1,6 @@
 (* C08 — property theorems (statements only; proofs live in Proofs*.v).  See notes/C08.md for the status of each. *)
 From Coq Require Import List ZArith QArith Qabs Bool.
-Require Import QV.C08.Model QV.C08.Spec QV.C08.Wf QV.C08.Proofs QV.C08.ProofsVec QV.C08.ProofsRev QV.C08.ProofsConst QV.C08.ProofsTotal QV.C08.ProofsProper QV.C08.ProofsCtor QV.C08.Hist QV.C08.ProofsHist QV.C08.ProofsTrafo QV.C08.ProofsConstT QV.C08.ProofsTotalT QV.C08.ProofsTable QV.C08.ProofsPar QV.C08.ProofsOp.
+Require Import QV.C08.Model QV.C08.Spec QV.C08.Wf QV.C08.Proofs QV.C08.ProofsVec QV.C08.ProofsRev QV.C08.ProofsConst QV.C08.ProofsTotal QV.C08.ProofsProper QV.C08.ProofsCtor QV.C08.Hist QV.C08.ProofsHist QV.C08.ProofsTrafo QV.C08.ProofsConstT QV.C08.ProofsTotalT QV.C08.ProofsTable QV.C08.ProofsPar QV.C08.ProofsOp QV.C08.ProofsFlat.
 Import ListNotations.
 Open Scope Q_scope.
 
@@ -139,6 +139,15 @@ Theorem C08_from_to_reverse : forall w, okb w = true -> forall c t,
 Proof. exact from_to_reverse_sound. Qed.
 Print Assumptions C08_from_to_reverse.
 
+(* from_sequence in general (single part / constant folding / flattening of nested sequences) *)
+Theorem C08_from_sequence : forall l w', okb (WSeq l) = true -> from_sequence l = OK w' -> forall c t,
+  inb c (channels (WSeq l)) = true -> 0 <= t -> t < duration (WSeq l) ->
+  oQeq (sample w' c t) (sample (WSeq l) c t).
+Proof. exact from_sequence_sound. Qed.
+Print Assumptions C08_from_sequence.
+Theorem C08_duration_positive : forall w, okb w = true -> 0 < duration w.
+Proof. exact okb_pos. Qed.
+Print Assumptions C08_duration_positive.
 (* from_sequence: the constant-folding branch (all parts report dict-equal constants) ... *)
 Theorem C08_from_sequence_const : forall l d w', okb (WSeq l) = true ->
   fold_left cvs_step l (match l with x :: _ => cvd x | [] => None end) = Some d ->
@@ -147,8 +156,8 @@ Theorem C08_from_sequence_const : forall l d w', okb (WSeq l) = true ->
   oQeq (sample w' c t) (sample (WSeq l) c t).
 Proof. exact from_sequence_const_sound. Qed.
 Print Assumptions C08_from_sequence_const.
-(* ... and without folding and without nested sequences it IS the plain constructor (flattening of nested sequences,
-   from_parallel, from_operator, from_transformation, from_table de-duplication: not proved, see notes) *)
+(* ... and without folding and without nested sequences it IS the plain constructor (from_transformation and from_table
+   de-duplication: not proved, see notes) *)
 Theorem C08_from_sequence_plain : forall l, (2 <= length l)%nat ->
   Forall (fun w => is_seq w = None) l ->
   fold_left cvs_step l (match l with x :: _ => cvd x | [] => None end) = None ->
